@@ -13,6 +13,7 @@ import (
 	mh "github.com/multiformats/go-multihash"
 
 	ipfslog "berty.tech/go-ipfs-log"
+	"berty.tech/go-orbit-db/iface"
 	"berty.tech/weshnet/v2/internal/verifkit"
 	"berty.tech/weshnet/v2/pkg/errcode"
 )
@@ -247,9 +248,46 @@ func c13TwoWriters(ctx context.Context, rep *verifkit.Report, w *vWorld) {
 	}
 	ok := write(A, "a0") && write(A, "a1") && sync(B, A) &&
 		write(A, "a2") && write(B, "b2") && write(A, "a3") && write(B, "b3") &&
-		sync(A, B) && sync(B, A) && write(A, "a4") && sync(B, A)
+		sync(A, B) && sync(B, A) && write(A, "a4") && sync(B, A) &&
+		// a second and a third fork, merged in the opposite direction
+		write(B, "b5") && write(A, "a5") && write(B, "b6") && write(A, "a6") &&
+		sync(B, A) && sync(A, B) &&
+		write(A, "a7") && write(B, "b7") && sync(A, B) && sync(B, A)
 	if !ok {
 		return
+	}
+	// two more replicas receive the same entries differently: everything in one batch from A; entry by entry, in B's log
+	// order, from B. The log order (which every listing follows) must be the same on all four.
+	{
+		rc, rd := w.newReplica("CC", nil), w.newReplica("CD", nil)
+		cgc, dgc := rc.mustOpen(g), rd.mustOpen(g)
+		type pair struct {
+			name     string
+			src, one iface.Store
+			dst, two iface.Store
+		}
+		for _, p := range []pair{{"metadata", agc.MetadataStore(), bgc.MetadataStore(), cgc.MetadataStore(), dgc.MetadataStore()}, {"message", agc.MessageStore(), bgc.MessageStore(), cgc.MessageStore(), dgc.MessageStore()}} {
+			if err := vDeliver(ctx, p.dst, vHeads(p.src)); err != nil {
+				rep.Inconclusivef("two-writer batch delivery: %v", err)
+				return
+			}
+			for _, e := range p.one.OpLog().Values().Slice() {
+				if err := vDeliver(ctx, p.two, []ipfslog.Entry{e}); err != nil {
+					rep.Inconclusivef("two-writer entry-by-entry delivery: %v", err)
+					return
+				}
+			}
+			ref := fmt.Sprint(vLogCIDs(p.src))
+			for who, st := range map[string]iface.Store{"b": p.one, "one-batch-from-a": p.dst, "entry-by-entry-from-b": p.two} {
+				rep.Eval(1)
+				rep.Case("two-writers/" + p.name + "/log-order/" + who)
+				if got := fmt.Sprint(vLogCIDs(st)); got != ref {
+					rep.Violate("C13/two-writers/replicas-order-differently/"+p.name, "replicas holding the same forked log order it differently (a vs "+who+")", map[string]interface{}{"entries": p.src.OpLog().Len()})
+				}
+			}
+		}
+		_ = cgc.Close()
+		_ = dgc.Close()
 	}
 	for _, store := range []string{"metadata", "message"} {
 		listerOf := func(x wr) c13Lister {
